@@ -3,9 +3,9 @@ open Model
 open Sx
 
 let gg_kind_of = function
-  | "simple" -> KSimple | "directed" -> KDirected | "bipartite" -> KBipartite
+  | "simple" -> GioSimple | "directed" -> GioDirected | "bipartite" -> GioBipartite
   | s -> raise (Bad ("kind " ^ s))
-let gg_kind_str = function KSimple -> "simple" | KDirected -> "directed" | KBipartite -> "bipartite"
+let gg_kind_str = function GioSimple -> "simple" | GioDirected -> "directed" | GioBipartite -> "bipartite"
 let gg_exn_str = function
   | EValueError -> "ValueError" | EStopIteration -> "StopIteration" | EIndexError -> "IndexError"
   | ETypeError -> "TypeError" | ENotModelled -> "NotModelled"
